@@ -93,6 +93,27 @@ CORPUS = [
             "            sink2(q % 2, (q + i) / 3)\n"
         ),
     },
+    {   # shifted loop: (4*io + ii - 1) / 4 with ii in seq(1, 5) is io (the constant -1 is not a multiple of 4, its
+        # floor quotient -1 must NOT be added); mirrored loop: (4*io + 7 - ii) / 4 with ii in seq(4, 8) is io
+        "name": "division-shifted-and-mirrored-iterator",
+        "src": (
+            "@proc\n"
+            "def sink2(a: index, b: index):\n"
+            "    pass\n"
+            "\n"
+            "@proc\n"
+            "def p(n: size, x: R[64]):\n"
+            "    for io in seq(0, n):\n"
+            "        for ii in seq(1, 5):\n"
+            "            sink2((4 * io + ii - 1) / 4, (4 * io + ii - 1) % 4)\n"
+            "            x[(4 * io + ii - 1) % 64] = 1.0\n"
+            "        for ii in seq(4, 8):\n"
+            "            sink2((4 * io + 7 - ii) / 4, (4 * io + 7 - ii) % 4)\n"
+            "        for ii in seq(3, 6):\n"
+            "            sink2((8 * io + ii + 5 - 8) / 8, (8 * io - ii + 13) / 8)\n"
+            "            sink2((8 * io + ii + 5) / 8, (8 * io - ii + 13) % 8)\n"
+        ),
+    },
     {   # R-typed constant quotient must fold as real division
         "name": "real-constant-division",
         "src": (
